@@ -35,4 +35,12 @@ def initModel (ns : Nat) (s : Nat → Nat → α) (tablePi : Nat → α) (aafreq
   let mr : α := sumTo ns fun i => pi i * sum i
   ⟨pi, mr, fun i j => (if i = j then -(sum i) else m1 i j) / mr⟩
 
+/-- `InitModel` after the `fix:` commit: the frequencies (user given or the table's) are first
+normalised to sum to 1 — `pi[i] = pi[i] / Σ pi`, summed in index order — then used as before.  All
+theorems about `initModel` hold for arbitrary frequencies, hence for the normalised ones. -/
+def initModelN (ns : Nat) (s : Nat → Nat → α) (tablePi : Nat → α) (aafreqs : Option (Nat → α)) : Init α :=
+  let pi0 : Nat → α := match aafreqs with | some f => f | none => tablePi
+  let tot : α := sumTo ns pi0
+  initModel ns s (fun i => pi0 i / tot) (some fun i => pi0 i / tot)
+
 end Gv.Model.ProtModel
